@@ -262,7 +262,7 @@ static int name_ok (const char *s)
 {
 	if (!s || !isalpha ((unsigned char) s[0])) return 0;
 	for (const char *q = s; *q; q++) if (!isalnum ((unsigned char) *q) && *q != '_') return 0;
-	if (!strcasecmp (s, "inf") || !strcasecmp (s, "infinity")) return 0;   /* the LP writer renames these */
+	if (!strcasecmp (s, "inf") || !strcasecmp (s, "infinity") || !strcasecmp (s, "free")) return 0;   /* the LP writer renames these */
 	return 1;
 }
 static int names_plain (const RefLP * M, int mps)
